@@ -48,6 +48,10 @@ THEOREMS = {
         "both supplied mappings, the three encoder calls with their existing_mapping arguments, split / vstack / T, the six stores), run on the "
         "arrays of a constructor call, equal the id part of mk_screen read back by stored_ids, after mk_screen's arity and per-plate checks; "
         "hypotheses: arity > 0, supplied mappings key-unique",
+    "C01_model_is_source_n_unique_samples": "the translated property ExperimentSpace.n_unique_samples on the sample-mapping tuple a constructed "
+        "screen stores = space_n_samples",
+    "C01_model_is_source_n_unique_treatments": "the translated property ExperimentSpace.n_unique_treatments (np.unique of np.setdiff1d(ids, "
+        "[sentinel])) on the stored treatment-mapping tuple = space_n_treatments",
     "C01_model_is_source_init": "mk_screen (for whatever the call passes) = refuse ragged rows; the two translated observation-mask runs of "
         "Screen.__init__ (C12 link); then the translated id run on the rows they leave - the constructor model tied to the source statement "
         "by statement; same hypotheses",
@@ -61,8 +65,9 @@ ASSUMPTIONS = [
 EXPLANATION = ("Model: Model/Encode.v + Model/Screen.v (mk_screen). Compared exactly: treatment_ids, sample_ids, plate_ids, the three "
                "mappings in stored order, ExperimentSpace sizes, or error-ness.  "
                "SOURCE LINK (C01_model_is_source_*): numpy_array_is_0_indexed_integers, encode_treatment_arrays_to_0_indexed_ids, "
-               "encode_1d_array_to_0_indexed_ids (whole functions) and two statement runs of Screen.__init__ (the first statement; the id-encoding "
-               "statements from `treatment_arity = ...` to `self._plate_mapping = ...`) are re-translated from the source on every run by "
+               "encode_1d_array_to_0_indexed_ids (whole functions) two statement runs of Screen.__init__ (the first statement; the id-encoding "
+               "statements from `treatment_arity = ...` to `self._plate_mapping = ...`) and the properties ExperimentSpace.n_unique_samples / "
+               "n_unique_treatments are re-translated from the source on every run by "
                "harness/py2gal.py (configurations C01_* in harness/src_functions.py, output coq/theories/Generated/SrcEncode.v and SrcScreenIds.v) "
                "and proved equal to the model for all inputs (Proofs/C01Source.v, C01SourceInit.v).  Hypotheses of the links: a supplied mapping is "
                "key-unique (every mapping batchie builds is; with a repeated key pandas' merge duplicates rows where the model takes the first "
@@ -74,7 +79,8 @@ EXPLANATION = ("Model: Model/Encode.v + Model/Screen.v (mk_screen). Compared exa
                "np.concatenate([a, b]) and np.concatenate(list) (ValueError for no array); a == b (elementwise, equal shapes); np.all; "
                "the constant CONTROL_SENTINEL_VALUE (read from common.py); a.shape[1] and a[:, i] of a 2-d array = (shape[1], rows) (IndexError "
                "outside the columns); tuple projections m[0], m[1], m[2], m[-1], x[0], x[1]; np.split(a, n) (n equal parts, else ValueError); "
-               "np.vstack (the arrays become rows, ValueError for none / unequal lengths); a.T.  pandas (a DataFrame = the list of its rows in "
+               "np.vstack (the arrays become rows, ValueError for none / unequal lengths); a.T; np.setdiff1d(a, b) (sorted distinct values of a not in "
+               "b); a.size.  pandas (a DataFrame = the list of its rows in "
                "order, each with its index label, typed by its column set; a Series = the list of its values, Series operators and column "
                "assignment positional): `with pandas.option_context('mode.copy_on_write', True)` changes no value; pandas.DataFrame({...}) from "
                "two / three / one arrays (fresh RangeIndex; ValueError when lengths differ); drop_duplicates() (keep the first of equal rows, "
